@@ -48,6 +48,12 @@ def make_context(kind, backend, auth):
     """Caller-supplied SSLContext of the given kind (None for 'none')."""
     if kind == "none":
         return None
+    if kind == "urllib3_ctx":
+        # the documented way to obtain a context: urllib3's own factory (either backend)
+        from urllib3.util.ssl_ import create_urllib3_context
+        c = create_urllib3_context()
+        c.load_verify_locations(cafile=auth.capath)
+        return c
     if backend == "pyopenssl":
         # what a caller gets from urllib3's own factory while pyOpenSSL is injected
         from urllib3.util.ssl_ import create_urllib3_context
@@ -64,7 +70,7 @@ def make_context(kind, backend, auth):
 
 
 def client_kwargs(p, auth, der, variant=0):
-    kw = {"timeout": 4.0}
+    kw = {"timeout": 6.0}
     ctx = make_context(p["ctx"], p["backend"], auth)
     if ctx is not None:
         kw["ssl_context"] = ctx
@@ -126,10 +132,12 @@ def run_point(p, variant=0):
     route = p["route"]
     if route == "tunnel_http":
         plan["proxy"] = "http"
-    elif route in ("tunnel_https_good", "tunnel_https_bad"):
+    elif route in ("tunnel_https_good", "tunnel_https_bad", "tunnel_https_pinned"):
         plan["proxy"] = "https"
-        plan["proxy_leaf"] = auth.leaf("trusted" if route.endswith("good") else "untrusted", (PROXY_HOST,), None)
+        plan["proxy_leaf"] = auth.leaf("untrusted" if route.endswith("bad") else "trusted", (PROXY_HOST,), None)
     kw = client_kwargs(p, auth, origin[1], variant)
+    if route == "tunnel_https_pinned":
+        kw["proxy_assert_fingerprint"] = tlsnet.pins(plan["proxy_leaf"][1])[("sha256", "sha256_colon_upper")[variant % 2]]
     seen = []
 
     class RecConn(HTTPSConnection):
@@ -170,7 +178,7 @@ def run_point(p, variant=0):
             obs["exc"], obs["exc_msg"] = exc_chain(e), str(e)[:160]
             held = e  # noqa: F841
         # ground truth from the server side, taken BEFORE the harness closes or drops anything
-        obs["joined"] = net.wait()
+        obs["joined"] = net.wait(10.0)
         obs["conns"] = net.records()
         obs["seen"] = seen
         obs["warned"] = any(issubclass(x.category, InsecureRequestWarning) for x in w)
